@@ -61,4 +61,10 @@ META = {
         "note": "Trusted: Lean kernel; extractor (array length, unit table); Lean Float = IEEE binary64; time.ParseDuration as reference. Not proved: round trip, agreement (correspondence only).",
         "technique": "Lean 4 proof of totality (length bounds by arithmetic on digit counts); differential value-space and grammar sweep for round trip and agreement",
     },
+    "C19": {
+        "text": "Partial proof: over a method-by-method model of the buffer (read offset, unread bookkeeping, grow with its four branches) the representation invariant is proved for every operation sequence (induction), hence no out-of-range slice panic, and the only panics are the documented ones; algebraic laws of Write/Reset/Truncate are proved. Observational equivalence with bytes.Buffer is decided by three-way differential lock-step (PrintCtx vs model, bytes.Buffer vs model, PrintCtx vs bytes.Buffer) over random operation sequences with boundary sizes, invalid runes and failing readers/writers; the Go runtime's capacity growth is an oracle input, not modelled.",
+        "design_ref": "DESIGN.md §7 C19",
+        "note": "Trusted: Lean kernel; Go runtime slice growth (oracle); bytes.Buffer of the installed toolchain as the reference.",
+        "technique": "Lean 4 invariant proof over operation sequences on a concrete buffer model; three-way differential lock-step",
+    },
 }
